@@ -1,4 +1,5 @@
 import GA.Proofs.LexUnpack
+import GA.Proofs.LexLayer
 /-
   C02, second sentence: "for archives that contain no symlink entries, extracted into a destination
   that contains no symlinks, nothing outside the destination is created, modified, deleted, re-owned,
@@ -48,6 +49,29 @@ theorem untar_twice_confined (dest : Str) (o1 o2 : Opts) (es1 es2 : List Entry) 
   have h2 := untar_symlink_free_confined dest o2 es2 _ habs hov2 hs2 h1.2
   exact Confined.trans h1.1 h2.1
 
+/-- **plain layer apply of a layer without symbolic-link entries into a symlink-free world changes
+    nothing outside the destination** — whiteouts at any depth, opaque markers with their walk, the
+    hard-link staging area, reserved names, any order, whatever the outcome -/
+theorem applyLayer_symlink_free_confined (dest : Str) (o : Opts) (es : List Entry) (oldUmask : Nat) (w : World)
+    (habs : isAbs dest = true) (hsym : ∀ e ∈ es, e.typ ≠ .sym) (hw : LW (pathComps (clean dest)) w) :
+    Confined (pathComps (clean dest)) w.fs ((applyLayerP dest o es oldUmask).run w).2.fs ∧
+    LW (pathComps (clean dest)) ((applyLayerP dest o es oldUmask).run w).2 := by
+  have := LexSem.run _ _ (applyLayerP dest o es oldUmask) w (lex_applyLayer dest o es oldUmask habs hsym) hw
+  exact ⟨this.1, this.2.1⟩
+
+/-- a sequence of layers applied one after the other (each without symbolic-link entries) -/
+theorem applyLayers_confined (dest : Str) (o : Opts) (um : Nat) (habs : isAbs dest = true) :
+    ∀ (layers : List (List Entry)) (w : World), (∀ es ∈ layers, ∀ e ∈ es, e.typ ≠ .sym) →
+      LW (pathComps (clean dest)) w →
+      Confined (pathComps (clean dest)) w.fs
+        (layers.foldl (fun w' es => ((applyLayerP dest o es um).run w').2) w).fs
+  | [], w, _, _ => Confined.refl _ _
+  | es :: rest, w, hs, hw => by
+    simp only [List.foldl_cons]
+    have h1 := applyLayer_symlink_free_confined dest o es um w habs (hs es (by simp)) hw
+    have h2 := applyLayers_confined dest o um habs rest _ (fun x hx => hs x (by simp [hx])) h1.2
+    exact Confined.trans h1.1 h2
+
 /-! ### the hypotheses are satisfiable: a world with a destination and something beside it -/
 
 def exDir : Inode := { kind := .dir, perm := 0o755, uid := 0, gid := 0, mtime := some 0 }
@@ -73,7 +97,16 @@ theorem exFS_mem (p : Path) (i : Ino) (h : exFS.lookup p = some i) : (p, i) ∈ 
 example : LW (pathComps (clean b!"/w/dest")) ({ fs := exFS } : World) := by
   have hdp : pathComps (clean b!"/w/dest") = [b!"w", b!"dest"] := by decide
   rw [hdp]
-  refine ⟨⟨rfl, ?_, ?_, by decide⟩, ?_⟩
+  refine ⟨⟨rfl, ?_, ?_, by decide, ?_⟩, ?_⟩
+  rotate_left 2
+  · intro p i h
+    have hm := exFS_mem p i h
+    simp [exFS] at hm
+    rcases hm with ⟨rfl, _⟩ | ⟨rfl, _⟩ | ⟨rfl, _⟩ | ⟨rfl, _⟩ <;> intro c hc <;> simp at hc
+    · subst hc; simp [Norm, dot, dotdot]
+    · rcases hc with rfl | rfl <;> simp [Norm, dot, dotdot]
+    · rcases hc with rfl | rfl <;> simp [Norm, dot, dotdot]
+  rotate_left 1
   · intro p n h
     rw [get_def] at h
     cases hl : exFS.lookup p with
@@ -111,7 +144,21 @@ example : LW (pathComps (clean b!"/w/dest")) ({ fs := exFS } : World) := by
 example : LW (pathComps (clean b!"/")) ({ fs := FS.empty } : World) := by
   have hdp : pathComps (clean b!"/") = [] := by decide
   rw [hdp]
-  refine ⟨⟨rfl, ?_, ?_, ?_⟩, ?_⟩
+  refine ⟨⟨rfl, ?_, ?_, ?_, ?_⟩, ?_⟩
+  rotate_left 3
+  · intro p i h
+    simp only [FS.lookup, FS.empty] at h
+    cases hf : List.find? (fun e => e.1 == p) [(([] : Path), 0)] with
+    | none => rw [hf] at h; simp at h
+    | some x =>
+      have hp := List.find?_some hf
+      have hx := List.mem_of_find?_eq_some hf
+      simp at hx
+      subst hx
+      simp at hp
+      subst hp
+      intro c hc; cases hc
+  rotate_left 1
   · intro p n h
     simp only [FS.get, FS.lookup, FS.empty] at h
     cases hf : List.find? (fun e => e.1 == p) [(([] : Path), 0)] with
